@@ -38,4 +38,24 @@ theorem filter_keep_none (s : List StepRec) : s.filter (keep false false) = s :=
   intro r _
   simp [keep]
 
+theorem sameButFilters_unfiltered (a : Args) : sameButFilters a a.unfiltered := by
+  simp [sameButFilters, Args.unfiltered]
+
+theorem initState_unfiltered {σ : Type} (ρ : Oracle σ) (mc ms : List Machine) (sq : SimQueue) (a : Args) (orc : σ) :
+    initState ρ mc ms sq a.unfiltered orc = initState ρ mc ms sq a orc := rfl
+
+/-! a concrete two-packet state without machines, built directly so that the kernel can evaluate
+    runs from it (used by the non-vacuity examples of the property files) -/
+def exArgs : Args :=
+  { network := ⟨10, none⟩, maxTraceLength := 0, maxSimIterations := 0, continueAfterAllNormal := false,
+    onlyClientEvents := true, onlyNetworkActivity := false, fpClient := 0, fbClient := 0, fpServer := 0, fbServer := 0 }
+def exOracle : Oracle Unit := ⟨fun u => (0, u), fun _ u => (0, u)⟩
+def exSide : Side Unit :=
+  { fw := Fw.init exOracle [] 0 0 0 (), schedAction := [], schedTimer := [], blockingUntil := none, blockingBypassable := false }
+def exState : Option (St Unit) :=
+  let sq := parseTrace [(0, true), (1000, false)] 10
+  match Bottleneck.new ⟨10, none⟩ 1000000000 sq.maxPps with
+  | .ok net => some { sq := sq, client := exSide, server := exSide, net := net, now := 0, orc := () }
+  | .error _ => none
+
 end Mb.Sim
